@@ -63,6 +63,12 @@ static int is_set2 (const void *v) { cond_ctx (); return (*(const int *) v != 0)
 static int is_set_alias (const void *v) { cond_ctx (); return (*((const struct alias *) v)->p != 0); }
 static int alias_eq (const void *a, const void *b) { return (((const struct alias *) a)->p == ((const struct alias *) b)->p); }
 
+static void word_cb (int idx, int op, uint32_t old_v, uint32_t new_v, int ok) {
+	(void) idx; (void) op;
+	if (ok && (new_v & SC_MU_WLOCK) != 0 && (new_v & SC_MU_RLOCK_FIELD) != 0)
+		rt_violation ("exclusion-word", "wlock-and-readers", "mutex word %#x written with both the writer bit and a reader count (old %#x)", new_v, old_v);
+}
+
 static void enter (int writer, const char *how) {
 	int isr;
 	if (writer) {
@@ -286,6 +292,7 @@ static int setup (uint64_t seed) {
 		S.drv_endwait[i] = S.releaser ? (int) rt_rand_n (2) : 0;
 		rt_ev ((uint32_t) (S.order[i] | S.drv_gaps[i] << 2 | S.drv_read[i] << 4 | S.drv_nowake[i] << 5 | S.drv_try[i] << 6 | S.drv_check[i] << 7));
 	}
+	rt_watch_word (0, &S.mu.word, &word_cb);
 	return (S.nthreads);
 }
 
@@ -293,7 +300,7 @@ static void check (void) {
 	if (sc_get (&S.W) != 0 || sc_get (&S.R) != 0) rt_fatal ("shadow counters not zero at round end");
 	if ((sc_word (&S.mu.word) & (SC_MU_ANY_LOCK | 2u)) != 0) rt_violation ("final-word", "held", "after every thread finished the mutex word is %#x", sc_word (&S.mu.word));
 }
-static void teardown (void) { nsync_note_free (S.note); }
+static void teardown (void) { rt_watch_word (0, NULL, NULL); nsync_note_free (S.note); }
 
 static void describe (FILE *f) {
 	int t, i;
